@@ -547,7 +547,15 @@ class Directed(Scenario):
             prev = self.drop_rule
             k = r.randrange(1, 12)
             self.drop_rule = lambda d, n: (prev(d, n) if prev else False) or (d["type"] == 0 and n == 1 and d["seq"] % 16 == k)
-        self.do(f"vs write {r.choice([8000, 30000, 30000])}")
+        if r.random() < 0.3:
+            # a short first write, then a tail that is longer than the proven size but shorter than the probe size
+            self.do(f"vs write {r.choice([1, 100])}")
+            self.do("vs poll")
+            self.peer_acks(sack=False)
+            self.do("vs poll")
+            self.do(f"vs write {r.choice([529, 600, 700, 900, 990])}")
+        else:
+            self.do(f"vs write {r.choice([8000, 30000, 30000])}")
         for _ in range(r.randrange(15, 70)):
             if self.dead:
                 break
@@ -611,8 +619,20 @@ class Directed(Scenario):
                 self.inject(2, ack=self.our_fin_seq)
                 self.do("vs poll")
         elif target == "la":
-            self.inject(1, seq=self.peer_next)
-            self.do("vs poll")
+            if self.established and not peer_data_lost and r.random() < 0.5:
+                # the peer's FIN crosses data of ours: our FIN goes out right behind the data and is lost; the peer
+                # then acknowledges the data only
+                old_ack = self.peer_ack
+                self.do(f"vs write {r.choice([100, 300])}")
+                self.do("vs poll")
+                self.inject(1, seq=self.peer_next, ack=old_ack)
+                self.do("vs poll")
+                if self.our_fin_seq is not None:
+                    self.inject(2, ack=(self.our_fin_seq - 1) % 65536)
+                    self.do("vs poll")
+            else:
+                self.inject(1, seq=self.peer_next)
+                self.do("vs poll")
         # stimuli
         for _ in range(r.randrange(1, 5)):
             if self.dead:
